@@ -73,6 +73,11 @@ func (u *Universe) reorderMaps(ti *TypeInfo, v *Val, data []byte) {
 			if sub.Some || sub.T == 'e' {
 				u.reorderMaps(sh.TI, sub, payload)
 			}
+		case sh.T == 'o' && sh.Elem != nil && sh.Elem.T == 'e':
+			// by-value member of a oneof
+			if sub := v.L[slot]; sub.Some && len(sub.L) == 1 {
+				u.reorderMaps(sh.Elem.TI, sub.L[0], payload)
+			}
 		case sh.T == 'l' && (sh.Elem.T == 'm' || sh.Elem.T == 'e'):
 			i := occ[slot]
 			occ[slot]++
